@@ -581,10 +581,15 @@ func (mi *muxInstance) search(req *httpprot.Request) *route {
 				continue
 			}
 
-			// The path can be put into the cache if it has no headers.
+			// The path can be put into the cache if it has no headers, and no
+			// path with headers in front of it matches the path and method of
+			// the request: such a path must be preferred for the requests that
+			// satisfy its headers, but the cache key knows nothing about headers.
 			if len(path.headers) == 0 {
-				r = &route{code: 0, path: path}
-				mi.putRouteToCache(req, r)
+				if !headerMismatch {
+					r = &route{code: 0, path: path}
+					mi.putRouteToCache(req, r)
+				}
 			} else if !path.matchHeaders(req) {
 				headerMismatch = true
 				continue
